@@ -25,7 +25,9 @@ RULE = ("histories of 25..55 operations by 3..5 raw clients (+1 passive observer
         "which NoReply errors arrived (exactly one per slot closed by disconnect / timeout, none otherwise, never before "
         "reply_timeout elapsed); then, after one more round-trip, the bus's own pending-reply list (state dump of hook H1) "
         "must equal the model's set of open slots (a slot missing in the bus is tolerated only once its deadline has "
-        "passed). Expiry behind a younger call (own buses, reply_timeout 1.6 s): with an older and a younger call outstanding "
+        "passed). Calls refused for a full queue (own buses, max_outgoing_bytes 60000, a callee that does not read): a call answered "
+        "with LimitsExceeded never reaches the callee, the callee's later reply to it is refused with AccessDenied, and the callee's hang-up "
+        "yields NoReply for the delivered calls only. Expiry behind a younger call (own buses, reply_timeout 1.6 s): with an older and a younger call outstanding "
         "the older one's NoReply (after its timeout / after its callee's hang-up) may be no later than a lone call's and the younger "
         "call's own NoReply on the same bus plus 300 ms; counted only when a fresh bus repeats it. distinct = (operation class, message type, addressing, expected fate, observed fate, "
         "finite timeout?, small limit?)")
@@ -953,7 +955,141 @@ def _late_worker(args):
     return part
 
 
+# ======================================================================================= calls refused for a full queue
+# A call that the bus refuses because the callee's outgoing queue is over max_outgoing_bytes (LimitsExceeded) was never
+# delivered: it opens no reply slot.  Own buses with a small max_outgoing_bytes and a callee that does not read.
+
+QF_LIMIT = 60000
+
+
+def queue_full_case(b, rundir, rng, part, cid):
+    cfg = busproc.make_config("@SOCK@", policy_xml=policy_xml(), limits={"max_outgoing_bytes": QF_LIMIT})
+    d = busproc.Daemon(b, rundir, cfg, name="qf")
+    wit = {"part": "queue-full", "case": cid, "steps": []}
+    cl = []
+
+    def violation(key, what):
+        part.violation("%s:%s" % (PROP, key), what, dict(wit))
+
+    try:
+        if not d.started():
+            part.inconclusive.append("queue-full case: daemon did not start")
+            return
+        A, B, O = (client.connect(d.sock) for _ in range(3))
+        cl += [A, B, O]
+        A.bus_call(b"RequestName", b"su", [TEST_NAMES[0], 0])
+        B.bus_call(b"RequestName", b"su", [TEST_NAMES[1], 0])
+        O.bus_call(b"AddMatch", b"s", [NOC_RULE])
+        filler = b"f" * 30000
+        refused, delivered = [], []
+        for n in range(60):
+            A.signal(b"/t", b"com.example.I", b"Fill", b"s", [filler], dest=TEST_NAMES[1])
+            serial = A.call_async(TEST_NAMES[1], b"/t", b"com.example.I", b"Probe", b"s", [b"probe%d" % n])
+            A.barrier()
+            errs = [r for r in A.take_inbox() if r.msg.type == 3 and r.msg.known().get(5) == serial and r.msg.known().get(7) == BUS]
+            if len(errs) > 1:
+                violation("call-answered-%d-times-by-bus:queue-full" % len(errs), "the bus sent %d errors for one refused call" % len(errs))
+            if errs:
+                name = errs[0].msg.known().get(4)
+                if name != LIMITS:
+                    part.inconclusive.append("queue-full case: probe refused with %r" % name)
+                    return
+                refused.append(serial)
+                if len(refused) >= rng.randint(1, 3):
+                    break
+            else:
+                delivered.append(serial)
+        wit["steps"].append("fillers+probes: %d delivered, %d refused with LimitsExceeded" % (len(delivered), len(refused)))
+        if not refused:
+            part.count("queue-full:limit-never-reached(not judged)")
+            return
+        part.count("queue-full:cases")
+        part.count("queue-full:calls-refused", len(refused))
+        part.evaluations += 1
+        # the callee reads now: it must find the delivered probes and none of the refused ones
+        for _ in range(400):
+            n0 = len(B.inbox)
+            B.pump(0.05)
+            if len(B.inbox) == n0:
+                break
+        B.barrier()
+        got = [r.msg.serial for r in B.take_inbox() if r.msg.type == 1 and r.msg.known().get(3) == b"Probe" and r.msg.known().get(7) == A.unique]
+        for sr in refused:
+            if sr in got:
+                violation("call-delivered-and-refused:queue-full", "a call answered with LimitsExceeded reached the callee all the same")
+        mode = rng.choice(["late-reply", "late-reply", "hangup", "both"])
+        wit["steps"].append(mode)
+        part.sig("queue-full", mode, len(refused), min(len(delivered), 3))
+        if mode in ("late-reply", "both"):
+            for sr in refused:
+                own = B.reply_to(A.unique, sr) if hasattr(B, "reply_to") else None
+                if own is None:
+                    own, data = B.build(2, reply_serial=sr, dest=A.unique, sig=b"s", body=[b"late"])
+                    B.send_msg(data, own)
+                B.barrier()
+                A.barrier()
+                at_a = [r for r in A.take_inbox() if r.msg.type in (2, 3) and r.msg.known().get(5) == sr]
+                at_b = [r for r in B.take_inbox() if r.msg.type == 3 and r.msg.known().get(5) == own and r.msg.known().get(7) == BUS]
+                part.count("queue-full:late-replies-sent")
+                if any(r.msg.known().get(7) == B.unique for r in at_a):
+                    violation("reply-reached-target:call-refused-for-full-queue",
+                              "the callee's reply to a call that the bus had refused with LimitsExceeded (never delivered) reached the caller: two answers for one call")
+                elif at_a:
+                    violation("refused-call-answered-again-by-bus:queue-full", "the caller got %r for a call already answered with LimitsExceeded" % (at_a[0],))
+                elif not at_b or at_b[0].msg.known().get(4) != DENIED:
+                    violation("refused-reply-not-answered:call-refused-for-full-queue", "the reply to a never-delivered call was not refused with AccessDenied: %r" % (at_b[:1],))
+                else:
+                    part.count("queue-full:late-reply-refused")
+        if mode in ("hangup", "both"):
+            ub = B.unique
+            B.close()
+            for _ in range(200):
+                r = O.bus_call(b"NameHasOwner", b"s", [ub])
+                if r.msg.type == 2 and r.msg.body == [0]:
+                    break
+                time.sleep(0.02)
+            A.barrier()
+            A.barrier()
+            nore = collections.Counter(r.msg.known().get(5) for r in A.take_inbox()
+                                       if r.msg.type == 3 and r.msg.known().get(7) == BUS and r.msg.known().get(4) == NOREPLY)
+            for sr in refused:
+                if nore.get(sr):
+                    violation("noreply-without-open-call:call-refused-for-full-queue",
+                              "the caller got NoReply (callee hung up) for a call the bus had already answered with LimitsExceeded")
+                else:
+                    part.count("queue-full:no-noreply-for-refused-call")
+            for sr in delivered:
+                if nore.get(sr, 0) != 1:
+                    violation("noreply-count-%d:delivered-call:queue-full" % nore.get(sr, 0),
+                              "a delivered, unanswered call got %d NoReply errors when its callee hung up" % nore.get(sr, 0))
+                else:
+                    part.count("queue-full:noreply-for-delivered-call")
+    except (client.Timeout, client.Closed) as e:
+        part.inconclusive.append("queue-full case %d aborted: %s" % (cid, type(e).__name__))
+    finally:
+        for c in cl:
+            try:
+                c.close()
+            except Exception:
+                pass
+        d.stop()
+        for cls, site, text in d.problems():
+            part.violation("%s:%s:%s" % (PROP, cls, site), "daemon reported %s (queue-full part)" % cls, dict(wit, stderr=text[-2000:]))
+        shutil.rmtree(rundir, ignore_errors=True)
+
+
 def _any_worker(args):
+    if args[0] == "qf":
+        _, seed, shard, n = args
+        part = report.Part()
+        b = build.build("asan", quiet=True)
+        base = tempfile.mkdtemp(prefix="verif-c09q-")
+        try:
+            for i in range(n):
+                queue_full_case(b, os.path.join(base, "c%d" % i), gen.rng_for(seed, PROP, "qf", shard, i), part, shard * 1000 + i)
+        finally:
+            shutil.rmtree(base, ignore_errors=True)
+        return part
     if args[0] == "late":
         return _late_worker(args[1:])
     return _worker(args)
@@ -988,7 +1124,9 @@ def run(tier, seed, replay=None, scale=1.0):
     total = int((320 if tier == "quick" else 8000) * scale)
     per = max(1, total // 16)
     nlate = max(1, int((16 if tier == "quick" else 96) * scale))
-    shards = [(seed, i, per) for i in range(16)] + [("late", seed, i, max(1, nlate // 8)) for i in range(min(8, nlate))]
+    nqf = max(1, int((48 if tier == "quick" else 1200) * scale))
+    shards = [(seed, i, per) for i in range(16)] + [("late", seed, i, max(1, nlate // 8)) for i in range(min(8, nlate))] \
+        + [("qf", seed, i, max(1, nqf // 8)) for i in range(8)]
     for part in report.run_sharded(_any_worker, shards):
         if "late-part:max-control-lateness-ms" in part.counters:
             r.extra["late_part_max_control_lateness_ms"] = max(r.extra.get("late_part_max_control_lateness_ms", 0),
@@ -999,6 +1137,9 @@ def run(tier, seed, replay=None, scale=1.0):
     for k in REQUIRED:
         r.require(k, 3 if scale >= 1 else 1)
     r.require("daemon-stderr-scraped", 1)
+    r.require("queue-full:cases", 30 if scale >= 1 else 0)
+    r.require("queue-full:late-reply-refused", 20 if scale >= 1 else 0)
+    r.require("queue-full:no-noreply-for-refused-call", 10 if scale >= 1 else 0)
     r.require("late-part:old-call-expired-on-time:timeout", 3 if scale >= 1 else 0)
     r.require("late-part:old-call-expired-on-time:hangup", 3 if scale >= 1 else 0)
     r.require("call:recv-denied:" + pm.REFUSE_DENIED, int(100 * min(1.0, scale)))
